@@ -1614,13 +1614,13 @@ func c07VarsEntry(c *Ctx) {
 				case *ssa.TypeAssert:
 					if it, ok := x.AssertedType.Underlying().(*types.Interface); ok && is(x.X) {
 						for i := 0; i < it.NumMethods(); i++ {
-							if it.Method(i).Name() == "variablesNeeded" {
+							if isVarsNeededSig(it.Method(i).Type().(*types.Signature)) {
 								asks = append(asks, b)
 							}
 						}
 					}
 				case *ssa.Call:
-					if x.Call.IsInvoke() && x.Call.Method.Name() == "visitSameBodyChildren" && is(x.Call.Value) {
+					if x.Call.IsInvoke() && isVisitChildrenSig(x.Call.Method.Type().(*types.Signature)) && is(x.Call.Value) {
 						visits = append(visits, b)
 					}
 				}
@@ -1715,4 +1715,30 @@ func c07VarsEntry(c *Ctx) {
 			"hcldec.Variables returns on a path that has not visited the spec's same-body children: variables of nested specs (ExprSpec, DefaultSpec fallbacks, object attributes) are missing from the reported set")
 	}
 	c.Floor("vars.entry returns", n, 1, "hcldec.Variables")
+}
+
+
+// the method that reports the variables a spec needs: func(*hcl.BodyContent) []hcl.Traversal
+func isVarsNeededSig(sig *types.Signature) bool {
+	if sig.Params().Len() != 1 || sig.Results().Len() != 1 {
+		return false
+	}
+	pt, ok := sig.Params().At(0).Type().(*types.Pointer)
+	if !ok || !isNamed(pt.Elem(), modPath, "BodyContent") {
+		return false
+	}
+	sl, ok := sig.Results().At(0).Type().Underlying().(*types.Slice)
+	return ok && isNamed(sl.Elem(), modPath, "Traversal")
+}
+
+// the method that hands a spec's same-body children to a callback: func(func(Spec))
+func isVisitChildrenSig(sig *types.Signature) bool {
+	if sig.Params().Len() != 1 || sig.Results().Len() != 0 {
+		return false
+	}
+	cb, ok := sig.Params().At(0).Type().Underlying().(*types.Signature)
+	if !ok || cb.Params().Len() != 1 || cb.Results().Len() != 0 {
+		return false
+	}
+	return isNamed(cb.Params().At(0).Type(), modPath+"/hcldec", "Spec")
 }
